@@ -85,8 +85,12 @@ from .ast import (
 )
 
 def quote(s):
-    assert s.replace('_', '').replace('.', '').replace('/', '').isalnum(), \
+    assert s.replace('_', '').replace('.', '').replace('/', '').replace('-', '').isalnum(), \
         'Only use quote() with names or IDs in Stone.'
+    return "'%s'" % s
+
+def _quote_text(s):
+    # Values of doc references are free text, not names: no quote() assertion.
     return "'%s'" % s
 
 def parse_data_types_from_doc_ref(api, doc, namespace_context, ignore_missing_entries=False):
@@ -1412,12 +1416,12 @@ class IRGenerator:
                     if type_name not in env:
                         raise InvalidSpec(
                             'Bad doc reference to field %s of '
-                            'unknown type %s.' % (field_name, quote(type_name)),
+                            'unknown type %s.' % (field_name, _quote_text(type_name)),
                             *loc)
                     elif isinstance(env[type_name], ApiRoutesByVersion):
                         raise InvalidSpec(
                             'Bad doc reference to field %s of route %s.' %
-                            (quote(field_name), quote(type_name)),
+                            (_quote_text(field_name), _quote_text(type_name)),
                             *loc)
                     if isinstance(env[type_name], Environment):
                         # Handle reference to field in imported namespace.
@@ -1430,7 +1434,7 @@ class IRGenerator:
                     if not any(field.name == field_name
                                for field in data_type_to_check.all_fields):
                         raise InvalidSpec(
-                            'Bad doc reference to unknown field %s.' % quote(val),
+                            'Bad doc reference to unknown field %s.' % _quote_text(val),
                             *loc)
                 else:
                     # Referring to a field that's a member of this type
@@ -1439,7 +1443,7 @@ class IRGenerator:
                                for field in type_context.all_fields):
                         raise InvalidSpec(
                             'Bad doc reference to unknown field %s.' %
-                            quote(val),
+                            _quote_text(val),
                             *loc)
             elif tag == 'link':
                 if not (1 < val.rfind(' ') < len(val) - 1):
@@ -1447,7 +1451,7 @@ class IRGenerator:
                     # string to separate the title from the uri.
                     raise InvalidSpec(
                         'Bad doc reference to link (need a title and '
-                        'uri separated by a space): %s.' % quote(val),
+                        'uri separated by a space): %s.' % _quote_text(val),
                         *loc)
             elif tag == 'route':
                 if '.' in val:
@@ -1464,14 +1468,14 @@ class IRGenerator:
                 route_name, version = parse_route_name_and_version(val)
                 if route_name not in env_to_check:
                     raise InvalidSpec(
-                        'Unknown doc reference to route {}.'.format(quote(route_name)), *loc)
+                        'Unknown doc reference to route {}.'.format(_quote_text(route_name)), *loc)
                 if not isinstance(env_to_check[route_name], ApiRoutesByVersion):
                     raise InvalidSpec(
-                        'Doc reference to type {} is not a route.'.format(quote(route_name)), *loc)
+                        'Doc reference to type {} is not a route.'.format(_quote_text(route_name)), *loc)
                 if version not in env_to_check[route_name].at_version:
                     raise InvalidSpec(
                         'Doc reference to route {} has undefined version {}.'.format(
-                            quote(route_name), version),
+                            _quote_text(route_name), version),
                         *loc)
             elif tag == 'type':
                 if '.' in val:
@@ -1491,15 +1495,15 @@ class IRGenerator:
                 elif not isinstance(env_to_check[val], (Struct, Union)):
                     raise InvalidSpec(
                         'Doc reference to type %s is not a struct or union.' %
-                        quote(val), *loc)
+                        _quote_text(val), *loc)
             elif tag == 'val':
                 if not doc_ref_val_re.match(val):
                     raise InvalidSpec(
-                        'Bad doc reference value %s.' % quote(val),
+                        'Bad doc reference value %s.' % _quote_text(val),
                         *loc)
             else:
                 raise InvalidSpec(
-                    'Unknown doc reference tag %s.' % quote(tag),
+                    'Unknown doc reference tag %s.' % _quote_text(tag),
                     *loc)
 
     def _validate_annotations(self):
